@@ -8,6 +8,7 @@
     model in the second half (flat buffers, row-major datasets, hyperslab read). *)
 From Coq Require Import List ZArith Bool Lia QArith Qcanon.
 From Inovesa Require Import Base.FieldKit.
+From Inovesa Require Model.Bounds.
 Import ListNotations.
 Local Open Scope Z_scope.
 
@@ -101,9 +102,15 @@ Definition is_ps_out (c : cfg) (k : Z) : bool :=
 
 (** time value written for tag k: [static_cast<double>(simulationstep)/steps] *)
 Definition tval (steps : Qc) (k : Z) : Qc := (Q2Qc (inject_Z k) / steps)%Qc.
-(** [laststep = ceil(steps*rotations)] *)
+(** [laststep = ceil(steps*rotations*(1.0-1e-12))], all three factors doubles, every product one binary64
+    multiplication ([Bounds.rnd53]; the constant is folded in binary64 too).  Before the repair (repo "fix: the number of
+    steps ...") [rotations] was narrowed to float and the guard factor was absent: [laststep_pinned], whose
+    non-additivity for decimal run lengths is what the C11 check found ([laststep_pinned_not_additive] in RecordsP). *)
 Definition Qcceil (q : Qc) : Z := (- ((- Qnum (this q)) / Zpos (Qden (this q)))).
-Definition laststep (steps rotations : Qc) : Z := Qcceil (steps * rotations)%Qc.
+Definition laststep_pinned (steps rotations : Qc) : Z := Qcceil (steps * rotations)%Qc.
+Definition laststep_guard : Qc := Bounds.rnd53 (1 - Bounds.rnd53 (Q2Qc (1 # 1000000000000)))%Qc.
+Definition laststep (steps rotations : Qc) : Z :=
+  Qcceil (Bounds.rnd53 (Bounds.rnd53 (steps * rotations) * laststep_guard))%Qc.
 
 (** ** (b) file layer *)
 
